@@ -14,11 +14,12 @@ import (
 	"os/exec"
 	"path/filepath"
 	"runtime"
+	"runtime/debug"
+	"runtime/pprof"
 	"sort"
 	"strconv"
 	"strings"
 	"sync"
-	"syscall"
 	"time"
 
 	"grulesim/sim/checks"
@@ -89,9 +90,27 @@ func cmdWorker(a []string) int {
 		fmt.Fprintln(os.Stderr, "worker: unknown property", a[0])
 		return 2
 	}
-	// a worker that runs away in memory must die alone (exit 2), not take the machine with it
-	lim := uint64(6) << 30
-	_ = syscall.Setrlimit(syscall.RLIMIT_AS, &syscall.Rlimit{Cur: lim, Max: lim})
+	// a worker that runs away in memory must die alone (exit 2), not take the machine with it.
+	// (RLIMIT_AS makes the Go runtime crawl, so a watchdog on the heap size is used instead.)
+	go func() {
+		for {
+			time.Sleep(300 * time.Millisecond)
+			var ms runtime.MemStats
+			runtime.ReadMemStats(&ms)
+			if ms.HeapAlloc > 5<<30 {
+				fmt.Fprintf(os.Stderr, "worker: heap grew to %d MiB, giving up (machinery trouble, exit 2)\n", ms.HeapAlloc>>20)
+				os.Exit(2)
+			}
+		}
+	}()
+	debug.SetGCPercent(800)
+	if pf := os.Getenv("VERIF_CPUPROFILE"); pf != "" {
+		f, err := os.Create(pf)
+		if err == nil {
+			_ = pprof.StartCPUProfile(f)
+			defer pprof.StopCPUProfile()
+		}
+	}
 	tier := a[1]
 	seed, _ := strconv.ParseUint(a[2], 10, 64)
 	shard, _ := strconv.Atoi(a[3])
